@@ -55,8 +55,12 @@ KindVal(k) ==
 (* ----------------------------- program pool ---------------------------- *)
 \* ast: the program (text = Render(ast)) or, for bad texts, text given literally; needs: names that must be
 \* declared for the text to compile; decl: names the text declares; errnos: allowed bloc_errno of a rejection
-PG(ast, needs, decl) == [ast |-> ast, text |-> "", needs |-> needs, decl |-> decl, bad |-> FALSE, errnos |-> {2}]
-BadText(text, errnos) == [ast |-> <<>>, text |-> text, needs |-> {}, decl |-> {}, bad |-> TRUE, errnos |-> errnos]
+PG(ast, needs, decl) == [ast |-> ast, text |-> "", needs |-> needs, decl |-> decl, bad |-> FALSE, errnos |-> {2}, norun |-> FALSE]
+\* a valid text that is only ever compiled (running it would change the type of an API-stored name)
+PGN(ast, needs, decl) == [PG(ast, needs, decl) EXCEPT !.norun = TRUE]
+BadText(text, errnos) == [ast |-> <<>>, text |-> text, needs |-> {}, decl |-> {}, bad |-> TRUE, errnos |-> errnos, norun |-> FALSE]
+\* a rejected text that mentions API-stored names before its error (they may stay declared)
+BadTextD(text, decl) == [BadText(text, {}) EXCEPT !.decl = decl]
 Prog == <<
   PG(<<Let("Y", Bin("+", V("X"), I(1))), PrintS(<<V("Y")>>), Return(V("Y"))>>, {"X"}, {"Y"}),
   PG(<<Let("S", Bin("+", V("S"), Str("a"))), PrintS(<<V("S")>>)>>, {"S"}, {}),
@@ -101,7 +105,21 @@ Prog == <<
   BadText("return 1 +;", {}),
   BadText("Z = -;", {}),
   BadText("begin Z = 1; exception when others then Z = ; end;", {}),
-  BadText("if true then for J in 1 to 2 loop print J; end loop; print ); end if;", {})
+  BadText("if true then for J in 1 to 2 loop print J; end loop; print ); end if;", {}),
+  \* the error inside the body of every construct (what was opened must be closed again)
+  BadText("while true loop print ); end loop;", {}), BadText("for J in 1 to 2 loop print ); end loop;", {}), BadText("forall J in tab(1, 1) loop print ); end loop;", {}),
+  BadText("if true then print ); end if;", {}), BadText("if false then print 1; else print ); end if;", {}), BadText("begin print ); end;", {}),
+  BadText("begin print 1; exception when others then print ); end;", {}),
+  BadText("function G(A) return integer is begin while true loop print ); end loop; return 1; end;", {}),
+  BadText("while true loop ; end loop;", {}), BadText("for J in 1 to 2 loop end loop;", {}),
+  \* type errors found after part of the expression tree was built
+  BadText("Z = \"x\" * 2;", {}), BadText("Z = 2 - \"x\";", {}), BadText("Z = true + 1;", {}), BadText("Z = -\"x\";", {}), BadText("Z = 1 + tab(1, 1) * \"s\";", {}),
+  BadText("Z = (1 + 2) * \"s\" + 3;", {}), BadText("Z = 1 < \"s\";", {}), BadText("Z = not 5;", {}), BadText("Z = \"s\" and true;", {}), BadText("Z = 2 ** \"s\";", {}),
+  BadText("Z = \"x\"; W = Z * 2;", {}), BadText("print abs(\"s\") 1;", {}), BadText("print substr(1, 2) 3;", {}),
+  \* an existing name re-typed several times by a text that is then rejected / only compiled: its type is what it was
+  BadTextD("X = \"x\"; X = 1.5; Z = ;", {"X"}), BadTextD("S = 1; S = tab(1, 1); S = 2.5; Z = ;", {"S"}),
+  PGN(<<Let("X", Str("x")), Let("X", D(3)), Let("X", Call("tab", <<I(1), I(1)>>))>>, {"X"}, {}),
+  PGN(<<Let("S", I(1)), Let("S", D(5)), Let("S", Str("back"))>>, {"S"}, {})
 >>
 FuncNames == {"F()", "G()"}
 ProgText(p) == IF Prog[p].bad THEN Prog[p].text ELSE Render(Prog[p].ast)
@@ -194,11 +212,13 @@ Pre(m, a) ==
                                             /\ TypeOf(m.lib[a.h].v).m # "any"
     [] a.a = "parse_exec" -> Live(m, a.c) /\ a.h \in DOMAIN m.exe /\ m.exe[a.h].st = "free" /\ a.p \in DOMAIN Prog
                              /\ Prog[a.p].needs \cap (m.ctx[a.c].maybe \ m.ctx[a.c].decl) = {}
-    [] a.a = "run"       -> a.h \in DOMAIN m.exe /\ ExeUsable(m, a.h) /\ a.c = m.exe[a.h].c
+                             \* (a text that only re-types names is generated when the names exist with their API type)
+                             /\ (Prog[a.p].norun => Prog[a.p].needs \subseteq m.ctx[a.c].decl)
+    [] a.a = "run"       -> a.h \in DOMAIN m.exe /\ ExeUsable(m, a.h) /\ a.c = m.exe[a.h].c /\ ~Prog[m.exe[a.h].p].norun
     \* bloc_execute2: the clone runs an executable of its original - one compiled before the clone was taken, or one
     \* compiled later that only uses names (variables, functions) the clone already had, while the clone itself has
     \* not declared anything new (else the symbol tables no longer line up)
-    [] a.a = "run2"      -> a.h \in DOMAIN m.exe /\ ExeUsable(m, a.h) /\ Live(m, a.c) /\ a.c # m.exe[a.h].c
+    [] a.a = "run2"      -> a.h \in DOMAIN m.exe /\ ExeUsable(m, a.h) /\ Live(m, a.c) /\ a.c # m.exe[a.h].c /\ ~Prog[m.exe[a.h].p].norun
                             /\ \/ a.h \in m.ctx[a.c].par
                                \/ /\ m.ctx[a.c].pgen = m.exe[a.h].gen /\ m.ctx[a.c].decl = m.ctx[a.c].base
                                   /\ (Prog[m.exe[a.h].p].needs \cup Prog[m.exe[a.h].p].decl) \subseteq m.ctx[a.c].base
